@@ -57,6 +57,14 @@ var needsLen = map[string][2]int{ // callee -> (arg index, min length)
 	"(encoding/binary.bigEndian).PutUint64": {1, 8},
 }
 
+// needsPositive: library functions that panic unless the argument is > 0.
+var needsPositive = map[string]int{ // callee -> arg index
+	"math/rand.Intn": 0, "math/rand.Int31n": 0, "math/rand.Int63n": 0,
+	"(*math/rand.Rand).Intn": 1, "(*math/rand.Rand).Int31n": 1, "(*math/rand.Rand).Int63n": 1,
+	"math/rand/v2.IntN": 0, "math/rand/v2.Int32N": 0, "math/rand/v2.Int64N": 0, "math/rand/v2.N": 0,
+	"time.NewTicker": 0, "time.Tick": -1, // Tick tolerates d <= 0 (returns nil): listed for documentation only
+}
+
 // fixedLenResults: library functions whose non-nil result has a known length.
 var fixedLenResults = map[string]int{
 	"(net.IP).To4":  4,
@@ -287,6 +295,38 @@ func (sp *safetyPass) call(st *State, in ssa.Instruction, cc *ssa.CallCommon) {
 			sp.add("NILSRC", "call", desc, in, Violated, fmt.Sprintf("nilable source (%s) is passed with no dominating non-nil fact to %s, which dereferences that parameter without testing it", src, shortFn(fn)), st)
 		}
 	}
+	// library routines that panic on a non-positive argument
+	if i, ok := needsPositive[fn.String()]; ok && i >= 0 && sp.on["ARITH"] && i < len(cc.Args) {
+		a := cc.Args[i]
+		desc := fn.Name() + " argument " + sp.ex.Canon(nil, a).S
+		if k, isC := constInt(a); isC {
+			if k > 0 {
+				sp.add("ARGPOS", "call", desc, in, Discharged, "positive constant", st)
+			} else {
+				sp.add("ARGPOS", "call", desc, in, Violated, fmt.Sprintf("%s panics on a non-positive argument; it is called with the constant %d", shortFn(fn), k), st)
+			}
+		} else {
+			as := sp.ex.Canon(st, a).S
+			proved := false
+			for _, f := range st.live {
+				if f.Kind == "lt" && f.X == as && !f.Val {
+					if k, err := strconv.ParseInt(f.Y, 10, 64); err == nil && k >= 1 {
+						proved = true // not (a < k), k >= 1
+					}
+				}
+				if f.Kind == "lt" && f.Y == as && f.Val {
+					if k, err := strconv.ParseInt(f.X, 10, 64); err == nil && k >= 0 {
+						proved = true // k < a, k >= 0
+					}
+				}
+			}
+			if proved {
+				sp.add("ARGPOS", "call", desc, in, Discharged, "argument > 0 established on this path", st)
+			} else {
+				sp.add("ARGPOS", "call", desc, in, Violated, fmt.Sprintf("%s panics on a non-positive argument; no fact on this path establishes %s > 0", shortFn(fn), shortName(as)), st)
+			}
+		}
+	}
 	// library routines that index their argument
 	if nl, ok := needsLen[fn.String()]; ok && sp.on["BOUNDS"] && nl[0] < len(cc.Args) {
 		sp.needLen(st, in, cc.Args[nl[0]], nl[1], fn.String())
@@ -414,6 +454,35 @@ func (sp *safetyPass) nilSource(st *State, v ssa.Value) (string, bool, bool) {
 		}
 	case *ssa.UnOp:
 		if x.Op == token.MUL {
+			// a variable captured by a closure analysed on its own: nilable if anything its
+			// enclosing function stores into it is (a guard there is not visible from here)
+			if fv, ok := x.X.(*ssa.FreeVar); ok && fv.Parent().Parent() != nil {
+				for _, b := range fv.Parent().Parent().Blocks {
+					for _, in := range b.Instrs {
+						mc, ok := in.(*ssa.MakeClosure)
+						if !ok || mc.Fn != ssa.Value(fv.Parent()) {
+							continue
+						}
+						for j, q := range fv.Parent().FreeVars {
+							if q != fv || j >= len(mc.Bindings) {
+								continue
+							}
+							if al, ok := mc.Bindings[j].(*ssa.Alloc); ok {
+								for _, r := range *al.Referrers() {
+									if sto, ok := r.(*ssa.Store); ok && sto.Addr == ssa.Value(al) {
+										if _, guarded := sto.Val.(*ssa.Extract); guarded {
+											continue // (value, err) / (value, ok) results: their guard sits in the enclosing function, out of sight here
+										}
+										if src, _, ok := sp.nilSource(st, sto.Val); ok {
+											return "captured variable " + fv.Name() + " holding " + src, false, true
+										}
+									}
+								}
+							}
+						}
+					}
+				}
+			}
 			if fa, ok := x.X.(*ssa.FieldAddr); ok {
 				if f := fieldOf(fa.X.Type(), fa.Field); f != nil && f.Pkg() != nil {
 					if n := namedOf(fa.X.Type()); n != "" {
